@@ -440,6 +440,13 @@ impl World {
         let side = self.side_mut();
         side.last_obs = obs;
         side.last_fp = fp;
+        if !side.shrunk.is_empty() || !side.desynced.is_empty() {
+            let model = &side.model;
+            let keep: Vec<u16> = side.shrunk.iter().copied().filter(|k| model.contains(*k)).collect();
+            let keep2: Vec<u16> = side.desynced.iter().copied().filter(|k| model.contains(*k)).collect();
+            side.shrunk = keep.into_iter().collect();
+            side.desynced = keep2.into_iter().collect();
+        }
     }
 }
 
@@ -453,8 +460,15 @@ pub fn mk_key(k: u16, heap: usize) -> TKey {
     TKey::new(k, heap)
 }
 
+/// A value measuring `heap` bytes; every fourth one keeps a third of that as
+/// spare capacity (which a clone of the value does not have).
 pub fn mk_val(tag: u32, heap: usize) -> TVal {
-    TVal::new(tag, heap)
+    let mut v = TVal::new(tag, heap);
+    if tag % 4 == 1 && heap >= 3 {
+        v.spare = heap / 3;
+        v.heap = heap - v.spare;
+    }
+    v
 }
 
 pub fn give_to_cache(k: &TKey, v: &TVal) {
